@@ -40,6 +40,7 @@ var Universe = map[string]string{
 	"int": "整型", "uint": "正整", "float32": "单精", "float64": "双精", "complex64": "单复", "complex128": "双复",
 	"int8": "微整型", "int16": "短整型", "int32": "普整型", "int64": "长整型",
 	"uint8": "微正整", "uint16": "短正整", "uint32": "普正整", "uint64": "长正整", "uintptr": "地址型",
+	"__wa_i8": "微整型", "__wa_i16": "短整型", // the English universe hides i8/i16 behind these names (token.K_i8, K_i16)
 	"i8": "微整型", "i16": "短整型", "i32": "普整型", "i64": "长整型",
 	"u8": "微正整", "u16": "短正整", "u32": "普正整", "u64": "长正整",
 	"f32": "单精", "f64": "双精",
@@ -728,7 +729,7 @@ var englishPairs = func() [][2]string {
 	canon := map[string]string{}
 	for en, zh := range Universe {
 		switch en {
-		case "i8", "i16", "i32", "i64", "u8", "u16", "u32", "u64", "f32", "f64":
+		case "i8", "i16", "i32", "i64", "u8", "u16", "u32", "u64", "f32", "f64", "__wa_i8", "__wa_i16":
 			continue
 		}
 		canon[zh] = en
